@@ -14,17 +14,23 @@ pub fn repl_config(replica: u64, level: ConsistencyLevel) -> ReplicationConfig {
     ReplicationConfig { enabled: true, replica_id: replica, consistency_level: level, gossip_interval_ms: 100, peers: vec![], replication_factor: 3, partitioned_mode: false, selective_gossip: false, virtual_nodes_per_physical: 50 }
 }
 
-pub struct Node { pub id: u64, pub state: ReplicatedShardedState<SimClock> }
+pub struct Node { pub id: u64, pub state: ReplicatedShardedState<SimClock>, pub gossip_actor: Option<redis_sim::production::GossipActorHandle> }
 
 impl Node {
     pub fn new(id: u64, level: ConsistencyLevel, clock: &SimClock) -> Node {
-        Node { id, state: ReplicatedShardedState::with_time_source(repl_config(id, level), clock.clone()) }
+        Node { id, state: ReplicatedShardedState::with_time_source(repl_config(id, level), clock.clone()), gossip_actor: None }
+    }
+    /// The node's other gossip backend: a GossipActor (a mailbox in front of the GossipState) instead of the shared lock.
+    pub fn with_gossip_actor(id: u64, level: ConsistencyLevel, clock: &SimClock) -> Node {
+        let h = redis_sim::production::GossipActor::spawn(repl_config(id, level));
+        Node { id, state: ReplicatedShardedState::with_gossip_actor_and_time(repl_config(id, level), h.clone(), clock.clone()), gossip_actor: Some(h) }
     }
     pub async fn exec(&self, args: &[Vec<u8>]) -> R {
         match parse_cmd(args) { Ok(c) => R::from_resp(&self.state.execute(c).await), Err(e) => R::Err(e) }
     }
     /// Drain the node's outbound gossip queue into serialized messages (one per broadcast message).
-    pub fn pump(&self) -> Vec<Vec<u8>> {
+    pub async fn pump(&self) -> Vec<Vec<u8>> {
+        if let Some(h) = &self.gossip_actor { return h.drain_outbound().await.into_iter().filter_map(|m| m.message.serialize().ok()).collect(); }
         let Some(gs) = self.state.get_gossip_state() else { return vec![] };
         let msgs = gs.write().drain_outbound();
         msgs.into_iter().filter_map(|m| m.message.serialize().ok()).collect()
